@@ -327,7 +327,9 @@ sx_parse_token(const char *s, const size_t n, const size_t i)
 static inline bool
 result_is_empty_listp(const struct sx_parse_result *res)
 {
-    return (res->status == SXS_SUCCESS && res->node->type == SXT_EMPTY_LIST);
+    return (res->status == SXS_SUCCESS
+            && res->node != NULL
+            && res->node->type == SXT_EMPTY_LIST);
 }
 
 static inline bool
